@@ -62,6 +62,46 @@ def observe(im, bkg, rms, seed_clip, flood_clip, region=None, wcs=None):
     return out
 
 
+_HISTORY = [False]
+
+
+def history():
+    """ordinary earlier use of the package in this process (once per process): a complete
+    find_sources_in_image run (flood, summit segmentation, fitting, characterisation) on a small
+    two-source image and a component estimation of a plateau island.  The islands of a later
+    find_islands call are a function of its arguments only - never of what the process did before."""
+    if _HISTORY[0]:
+        return
+    _HISTORY[0] = True
+    import contextlib
+    import io
+    import tempfile
+    from harness import synth
+    from AegeanTools import source_finder as sf
+    from AegeanTools.wcs_helpers import WCSHelper
+    shape = (40, 44)
+    h = synth.make_header(shape, cdelt_arcsec=20.0, beam_arcsec=(60.0, 60.0, 0.0))
+    s3 = 3 * synth.FWHM2SIG
+    img = synth.render(shape, [(12.0, 11.0, 13.0, s3, s3, 0.0), (9.0, 14.5, 15.5, s3, s3, 0.0),
+                               (-8.0, 30.0, 27.0, 2 * s3, s3, 0.4)])
+    img += np.random.default_rng(5).normal(0, 0.2, shape)
+    with tempfile.TemporaryDirectory(dir=common.WORKROOT if os.path.isdir(common.WORKROOT) else None) as d, \
+            contextlib.redirect_stderr(io.StringIO()):
+        path = synth.write(os.path.join(d, "hist.fits"), img, h)
+        try:
+            sf.SourceFinder().find_sources_in_image(path, rms=0.2, bkg=0.0, cores=1, nonegative=False)
+        except Exception:
+            pass
+        other = np.zeros((12, 12))
+        other[3:8, 3:8] = 6.0
+        other[5, 5] = 9.0
+        try:
+            isl = sf.find_islands(other, np.zeros_like(other), np.ones_like(other))
+            sf.estimate_parinfo_image(isl, im=other, rms=np.ones_like(other), wcshelper=WCSHelper.from_header(h))
+        except Exception:
+            pass
+
+
 def classify(im, bkg, rms, seed_clip, flood_clip, eps=1e-9):
     """class grid of an arbitrary image; returns None if a pixel is within eps
     of a threshold (input-domain assumption: no ties from rounding)."""
